@@ -17,23 +17,33 @@ def consts(ctx):
     ctx.obligations.append(("consts:verifyRawCerts lifetime bound found in crypto.go", bool(m), "" if m else "pattern not found"))
     expr = m.group(1) if m else "0"
     ctx.gen_consts_go(PKG, ["certValidity", "clockSkewAllowance"], exprs={"verifyMaxLifetime": expr}, extra_imports=["time"])
-    # which RSA test verifyRawCerts performs: 0 = the SignatureAlgorithm switch only (pinned tree),
-    # 1 = it also looks at the certificate's PublicKeyAlgorithm (fixes/C18-verifier-rsa-detection.diff).
-    # A wrong guess here shows up as a conformance mismatch on the RSA rows of the verifier table.
+    # which certificate of the presented chain verifyRawCerts inspects: 1 = the last one
+    # (rawCerts[len(rawCerts)-1], pinned tree), 0 = rawCerts[0], the one TLS authenticates
+    # (fixes/C18-verifier-leaf-of-chain.diff).  A wrong guess here shows up as a conformance
+    # mismatch on the chains of two and three of the verifier table.
     b = re.search(r"func verifyRawCerts\(.*?\n}\n", src, re.S)
     body = b.group(0) if b else ""
-    rule = 1 if re.search(r"PublicKeyAlgorithm\s*==\s*x509\.RSA", body) else 0
-    ctx.add_const_raw("Definition verifyRsaRule : Z := %d." % rule,
-                      "RSA test of verifyRawCerts (0: six PKCS#1 v1.5 signature algorithms only; 1: also PSS and RSA public keys)")
-    ctx.notes.append("verifyRsaRule=%d (%s)" % (rule, "pinned tree: c18_verify_sound_refuted applies" if rule == 0 else "repaired verifier: c18_verify_sound_if_repaired applies"))
+    last = 1 if re.search(r":=\s*rawCerts\[len\(rawCerts\)\s*-\s*1\]", body) else 0
+    ctx.obligations.append(("consts:verifyRawCerts chain index found in crypto.go",
+                            bool(last or re.search(r":=\s*rawCerts\[0\]", body)), ""))
+    ctx.add_const_raw("Definition verifyLeafLast : Z := %d." % last,
+                      "certificate of the chain inspected by verifyRawCerts (1: the last, 0: the first = the TLS server certificate)")
+    ctx.notes.append("verifyLeafLast=%d (%s)" % (last, "pinned tree: c18_verify_server_cert_refuted applies" if last else "repaired verifier: c18_verify_server_cert_if_repaired applies"))
 
 
 def harness(ctx, casefile, tier, seed):
     if ctx.tier == "thorough" and not getattr(ctx, "_coqchk_done", False):
         ctx._coqchk_done = True
         ctx.coqchk(["Verif.c18.Properties"])   # independent re-check of the compiled proofs
-    return ctx.go_test(PKG, "TestVerifC18$", OVERLAY,
-                       env={"VERIF_OUT": casefile, "VERIF_TIER": tier, "VERIF_SEED": str(seed)}, timeout=2400)
+    rc, out = ctx.go_test(PKG, "TestVerifC18$", OVERLAY,
+                          env={"VERIF_OUT": casefile, "VERIF_TIER": tier, "VERIF_SEED": str(seed)}, timeout=2400)
+    if not casefile.endswith("cases_search.txt"):
+        # fixed corpus: the four witnesses of the repaired RSA defect must be refused by the real code
+        cov = read_cov(casefile)
+        refused = sum(v for k, v in cov.items() if k.startswith("corpus.") and k.endswith(".refused"))
+        bad = [k for k in cov if k.startswith("corpus.") and k.endswith(".NOT_REFUSED")]
+        ctx.obligations.append(("corpus:RSA witnesses refused (%d/4)" % refused, refused == 4 and not bad, ", ".join(bad)))
+    return rc, out
 
 
 def warm(ctx):
@@ -167,6 +177,9 @@ def key(tag, toks, d):
     if toks[0] in (2, 3) and len(d) >= 2:
         cl = d[1]
         site = "verifyRawCerts" if toks[0] == 2 else "dial"
+        if toks[1] >= 2:
+            # the judged certificate (first of the chain) is not the one the verifier inspected
+            return "C18:%s:chain>=2:first-certificate:clause%d" % (site, cl)
         if cl == 13:
             return "C18:%s:accepts-RSA:rsa_key=%d:sig=%s" % (site, d[2], SIG.get(d[3], d[3]))
         return "C18:%s:clause%d" % (site, cl)
@@ -191,12 +204,11 @@ if __name__ == "__main__":
         "certValidity and clockSkewAllowance are whole seconds (proved for the values in /repo, regenerated obligation c18_consts_wf): X.509 stores NotBefore/NotAfter with one-second resolution",
         "a certificate's hash is an injective function of (host key, requested start, requested end): SHA-256 collision freeness and the X.509/HKDF/ECDSA libraries enter as the Section variable H",
         "the verifier's view of a certificate is the record Model.xcert (hash id, parses, RSA public key, signature-algorithm class, NotBefore/NotAfter relative to time.Now()); crypto/x509 parsing itself is trusted",
-        "chains longer than one certificate are outside the stated quantifier (DESIGN.md 9, item 11): the model follows the code (it inspects the LAST certificate), the monitor does not judge them; the harness counts the accepted [unpinned, pinned] chains",
+        "the server certificate of a presented chain is its first entry (crypto/tls authenticates certs[0]; with InsecureSkipVerify the other entries are unrelated bytes); the model follows the code in which entry it inspects (regenerated verifyLeafLast)",
         "the Noise handshake delivers the server's early data authentically (C02/C19 territory); the dial cases run the real handshake over loopback QUIC",
     ]
     ctx.notes += [
-        "outside the stated quantifier, counted only (input_distribution: verify.chain2_accepted_while_first_cert_not_pinned, dial.chain2_first_unpinned_last_pinned): verifyRawCerts hashes the LAST certificate of the chain while TLS authenticates the FIRST; a real Dial completes against a server presenting [unpinned own certificate, the listener's pinned certificate] (DESIGN.md 9 item 11)",
-        "outside the property text, noted only: after a restart lastConfig is nil, so an address learned in the previous period passes the certificate check but is refused at the Noise confirmation (the restarted server no longer lists the previous hash)",
+        "outside the property text (see manifest level_note), reproduced and counted (input_distribution restart.dial_with_previous_period_address.outcome_2 vs running.dial_with_previous_period_address.outcome_0): after a restart lastConfig is nil, so a dial with an address learned in the previous period passes the certificate check (the served certificate is pinned, as the property states) but is refused in upgrade(), which demands confirmation of every hash of the address, not only of the one relied on",
     ]
     standard_flow(ctx, dict(
         consts=consts,
